@@ -108,6 +108,8 @@ type scenario struct {
 	name  string
 	fn    string
 	input func(snd []byte) *vmcommon.ContractCallInput
+	// dstSide: the private account is passed as acntDst (and acntSnd is nil) instead of as acntSnd
+	dstSide bool
 	// terms: charge(S) = Σ N·S.price(Field). N of the payload terms is filled from the reference run.
 	terms []term
 	// payload extracts the number of marshalled bytes from the reference output (nil: N known upfront)
@@ -137,6 +139,22 @@ func senderAddr(i int) []byte {
 var destAddr = func() []byte {
 	a := bytes.Repeat([]byte{0x44}, 32)
 	a[0], a[31] = 0xd0, 0x01 // shard 1 of 2: cross-shard, never loaded through the adapter
+	return a
+}()
+
+// remoteContract lives in shard 1: the sender-side forms of ClaimDeveloperRewards and
+// ChangeOwnerAddress (acntDst nil) only take the gas out.
+var remoteContract = func() []byte {
+	a := bytes.Repeat([]byte{0x55}, 32)
+	copy(a, []byte{0, 0, 0, 0, 0, 0, 0, 0, 5, 0})
+	a[31] = 0x01
+	return a
+}()
+
+// dnsAddr is registered with the factory as a DNS address (caller of SetUserName).
+var dnsAddr = func() []byte {
+	a := bytes.Repeat([]byte{0x0d}, 32)
+	a[31] = 0x01
 	return a
 }()
 
@@ -264,6 +282,57 @@ func scenarios() []*scenario {
 			},
 			terms: []term{{"ESDTLocalMint", 1}},
 		},
+		// the remaining gas-priced functions have a base cost only: no mixture is possible, but they
+		// must still charge A or B and their SetNewGasConfig runs against their execution
+		{
+			name: "esdt-burn", fn: vmcommon.BuiltInFunctionESDTBurn,
+			input: func(s []byte) *vmcommon.ContractCallInput {
+				return mkInput(vmcommon.BuiltInFunctionESDTBurn, s, vmcommon.ESDTSCAddress, tokFungible, []byte{1})
+			},
+			terms: []term{{"ESDTBurn", 1}},
+		},
+		{
+			name: "esdt-local-burn", fn: vmcommon.BuiltInFunctionESDTLocalBurn,
+			input: func(s []byte) *vmcommon.ContractCallInput {
+				return mkInput(vmcommon.BuiltInFunctionESDTLocalBurn, s, s, tokFungible, []byte{1})
+			},
+			terms: []term{{"ESDTLocalBurn", 1}},
+		},
+		{
+			name: "nft-add-quantity", fn: vmcommon.BuiltInFunctionESDTNFTAddQuantity,
+			input: func(s []byte) *vmcommon.ContractCallInput {
+				return mkInput(vmcommon.BuiltInFunctionESDTNFTAddQuantity, s, s, tokSFT, []byte{1}, []byte{5})
+			},
+			terms: []term{{"ESDTNFTAddQuantity", 1}},
+		},
+		{
+			name: "nft-burn", fn: vmcommon.BuiltInFunctionESDTNFTBurn,
+			input: func(s []byte) *vmcommon.ContractCallInput {
+				return mkInput(vmcommon.BuiltInFunctionESDTNFTBurn, s, s, tokSFT, []byte{2}, []byte{3})
+			},
+			terms: []term{{"ESDTNFTBurn", 1}},
+		},
+		{
+			name: "claim-developer-rewards-sender-side", fn: vmcommon.BuiltInFunctionClaimDeveloperRewards,
+			input: func(s []byte) *vmcommon.ContractCallInput {
+				return mkInput(vmcommon.BuiltInFunctionClaimDeveloperRewards, s, remoteContract)
+			},
+			terms: []term{{"ClaimDeveloperRewards", 1}},
+		},
+		{
+			name: "change-owner-sender-side", fn: vmcommon.BuiltInFunctionChangeOwnerAddress,
+			input: func(s []byte) *vmcommon.ContractCallInput {
+				return mkInput(vmcommon.BuiltInFunctionChangeOwnerAddress, s, remoteContract, destAddr)
+			},
+			terms: []term{{"ChangeOwnerAddress", 1}},
+		},
+		{
+			name: "set-user-name-destination-side", fn: vmcommon.BuiltInFunctionSetUserName, dstSide: true,
+			input: func(s []byte) *vmcommon.ContractCallInput {
+				return mkInput(vmcommon.BuiltInFunctionSetUserName, dnsAddr, s, []byte("some.user.name"))
+			},
+			terms: []term{{"SaveUserName", 1}},
+		},
 	}
 }
 
@@ -364,7 +433,7 @@ func buildChargeWorld(nSenders int) (*chargeWorld, error) {
 		}
 		return nil
 	}
-	if err := must(fmt.Sprintf("world 2 0 %d - %s", activationEpoch, a.String()), "world ok"); err != nil {
+	if err := must(fmt.Sprintf("world 2 1 %d %s %s", activationEpoch, hx(dnsAddr), a.String()), "world ok"); err != nil {
 		return nil, err
 	}
 	if err := must(fmt.Sprintf("epoch * %d", activationEpoch), "epoch ok"); err != nil {
@@ -381,9 +450,9 @@ func buildChargeWorld(nSenders int) (*chargeWorld, error) {
 	for i := 0; i < nSenders; i++ {
 		s := senderAddr(i)
 		steps := []error{
-			call("ESDTSetRole", vmcommon.ESDTSCAddress, s, tokFungible, []byte(vmcommon.ESDTRoleLocalMint)),
+			call("ESDTSetRole", vmcommon.ESDTSCAddress, s, tokFungible, []byte(vmcommon.ESDTRoleLocalMint), []byte(vmcommon.ESDTRoleLocalBurn)),
 			call("ESDTSetRole", vmcommon.ESDTSCAddress, s, tokSFT, []byte(vmcommon.ESDTRoleNFTCreate), []byte(vmcommon.ESDTRoleNFTAddQuantity),
-				[]byte(vmcommon.ESDTRoleNFTAddURI), []byte(vmcommon.ESDTRoleNFTUpdateAttributes)),
+				[]byte(vmcommon.ESDTRoleNFTAddURI), []byte(vmcommon.ESDTRoleNFTUpdateAttributes), []byte(vmcommon.ESDTRoleNFTBurn)),
 			call("ESDTLocalMint", s, s, tokFungible, big),
 			call("ESDTNFTCreate", s, s, tokSFT, big, []byte("first"), []byte{0x01, 0xf4}, []byte("hash-of-first"), []byte("attrs-1"), []byte("uri-1a"), []byte("uri-1b")),
 			call("ESDTNFTCreate", s, s, tokSFT, big, []byte("second-nft"), []byte{0x07}, []byte("hash-of-second"), []byte("attrs-2-longer"), []byte("uri-2")),
@@ -424,8 +493,11 @@ func (cw *chargeWorld) exec(sc *scenario, s *sender) (uint64, *vmcommon.Contract
 		return 0, nil, nil, errInactive
 	}
 	in := sc.input(s.addr)
-	var snd vmcommon.UserAccountHandler = s.acc
-	out, err := f.ProcessBuiltinFunction(snd, nil, in)
+	var snd, dst vmcommon.UserAccountHandler = s.acc, nil
+	if sc.dstSide {
+		snd, dst = nil, s.acc
+	}
+	out, err := f.ProcessBuiltinFunction(snd, dst, in)
 	if rerr := s.restore(); rerr != nil && err == nil {
 		err = rerr
 	}
@@ -531,6 +603,13 @@ func (r *run) sectionCharge() error {
 	const maxReported = maxFindingsPerSection
 	reported := 0
 
+	var perByte []int
+	for i, sc := range cw.scens {
+		if len(sc.terms) > 1 {
+			perByte = append(perByte, i)
+		}
+	}
+
 	var wg sync.WaitGroup
 	bar := &spinBarrier{n: int32(executors + 2)}
 
@@ -544,7 +623,11 @@ func (r *run) sectionCharge() error {
 			local := make([]chargeStats, len(cw.scens))
 			bar.wait()
 			for it := 0; atomic.LoadInt32(&stop) == 0; it++ {
-				si := rng.Intn(len(cw.scens))
+				// two executions out of three go to the scenarios with a per-byte component
+				si := perByte[rng.Intn(len(perByte))]
+				if rng.Intn(3) == 0 {
+					si = rng.Intn(len(cw.scens))
+				}
 				sc := cw.scens[si]
 				c, in, _, err := cw.exec(sc, s)
 				if err != nil {
